@@ -4,7 +4,9 @@
 (* that reached the receiver (dlv, with the per-message metadata seen on the wire) and    *)
 (* batches handed to the error handler (dead).  At the end of every history (End: Close   *)
 (* has returned and all callers have returned) each accepted message must have exactly    *)
-(* one fate.  Message ids are stream*1000 + sequence number (stream = one sending goroutine *)
+(* one fate; a batch the receiver handled but whose reply it dropped (dlv with br =         *)
+(* "lostreply") is legitimately delivered AND dead-lettered, but still delivered only ONCE. *)
+(* Message ids are stream*1000 + sequence number (stream = one sending goroutine *)
 (* to one receiver); order is checked per stream.  Every line is consumed; deviations are   *)
 (* printed:                                                                                *)
 (*   <<"MISMATCH", line, kind, id, detail>>  kind = lost | dup | order | phantom | md      *)
@@ -12,9 +14,9 @@
 (* witness class of finding LateSubmit) and "early" otherwise.                             *)
 EXTENDS Integers, Sequences, FiniteSets, TLC, Json
 Trace == ndJsonDeserialize("trace.ndjson")
-VARIABLES l, acc, late, rej, dlv, dead, closing
-vars == <<l, acc, late, rej, dlv, dead, closing>>
-Init == l = 1 /\ acc = {} /\ late = {} /\ rej = {} /\ dlv = {} /\ dead = {} /\ closing = FALSE
+VARIABLES l, acc, late, rej, dlv, dead, closing, ambig
+vars == <<l, acc, late, rej, dlv, dead, closing, ambig>>
+Init == l = 1 /\ acc = {} /\ late = {} /\ rej = {} /\ dlv = {} /\ dead = {} /\ closing = FALSE /\ ambig = {}
 Ids(s) == {s[i] : i \in 1..Len(s)}
 Rep(cond, kind, id, detail) == IF cond THEN TRUE ELSE PrintT(<<"MISMATCH", l, kind, id, detail>>)
 Step ==
@@ -22,36 +24,40 @@ Step ==
   /\ l' = l + 1
   /\ LET e == Trace[l] IN
      CASE e.op = "New" ->
-            acc' = {} /\ late' = {} /\ rej' = {} /\ dlv' = {} /\ dead' = {} /\ closing' = FALSE
+            acc' = {} /\ late' = {} /\ rej' = {} /\ dlv' = {} /\ dead' = {} /\ closing' = FALSE /\ ambig' = {}
        [] e.op = "acc" ->
             /\ acc' = acc \cup {e.id}
             /\ late' = IF closing THEN late \cup {e.id} ELSE late
-            /\ UNCHANGED <<rej, dlv, dead, closing>>
+            /\ UNCHANGED <<rej, dlv, dead, closing, ambig>>
        [] e.op = "rej" ->
-            /\ rej' = rej \cup {e.id} /\ UNCHANGED <<acc, late, dlv, dead, closing>>
+            /\ rej' = rej \cup {e.id} /\ UNCHANGED <<acc, late, dlv, dead, closing, ambig>>
        [] e.op \in {"XClose", "xclose"} ->
-            /\ closing' = TRUE /\ UNCHANGED <<acc, late, rej, dlv, dead>>
+            /\ closing' = TRUE /\ UNCHANGED <<acc, late, rej, dlv, dead, ambig>>
        [] e.op = "dlv" ->
             /\ \A i \in 1..Len(e.ids) :
                  /\ Rep(e.ids[i] > 0, "garbled", e.ids[i], "payload not decodable")
-                 /\ Rep(e.ids[i] \notin dlv \cup dead, "dup", e.ids[i], "delivered again")
+                 /\ Rep(e.ids[i] \notin dlv, "dup", e.ids[i], "delivered again")
+                 /\ Rep(e.ids[i] \notin dead, "dup", e.ids[i], "delivered after it was dead-lettered")
                  /\ Rep(\A d \in dlv : d \div 1000 = e.ids[i] \div 1000 => d < e.ids[i], "order", e.ids[i], "after a later message of its caller")
                  /\ Rep(\A j \in 1..(i - 1) : e.ids[j] \div 1000 = e.ids[i] \div 1000 => e.ids[j] < e.ids[i], "order", e.ids[i], "batch order")
                  /\ Rep(\A j \in 1..(i - 1) : e.ids[j] # e.ids[i], "dup", e.ids[i], "twice in one batch")
                  /\ Rep(e.mds[i] = e.ids[i], "md", e.ids[i], e.mds[i])
-            /\ dlv' = dlv \cup Ids(e.ids) /\ UNCHANGED <<acc, late, rej, dead, closing>>
+            /\ dlv' = dlv \cup Ids(e.ids)
+            /\ ambig' = IF e.br = "lostreply" THEN ambig \cup Ids(e.ids) ELSE ambig   \* the receiver drops the reply
+            /\ UNCHANGED <<acc, late, rej, dead, closing>>
        [] e.op = "dead" ->
             /\ \A i \in 1..Len(e.ids) :
-                 /\ Rep(e.ids[i] \notin dlv \cup dead, "dup", e.ids[i], "dead-lettered again")
+                 /\ Rep(e.ids[i] \notin dead, "dup", e.ids[i], "dead-lettered again")
+                 /\ Rep(e.ids[i] \in dlv => e.ids[i] \in ambig, "dup", e.ids[i], "delivered and dead-lettered although the reply was not lost")
                  /\ Rep(\A j \in 1..(i - 1) : e.ids[j] # e.ids[i], "dup", e.ids[i], "twice in one failed batch")
-            /\ dead' = dead \cup Ids(e.ids) /\ UNCHANGED <<acc, late, rej, dlv, closing>>
+            /\ dead' = dead \cup Ids(e.ids) /\ UNCHANGED <<acc, late, rej, dlv, closing, ambig>>
        [] e.op = "End" ->
             /\ \A id \in acc \ (dlv \cup dead) : Rep(FALSE, "lost", id, IF id \in late THEN "late" ELSE "early")
             /\ \A id \in (dlv \cup dead) \ acc : Rep(FALSE, "phantom", id, IF id \in rej THEN "rejected" ELSE "unknown")
             /\ PrintT(<<"HISTORY", l, Cardinality(acc), Cardinality(dlv), Cardinality(dead), Cardinality(rej)>>)
-            /\ UNCHANGED <<acc, late, rej, dlv, dead, closing>>
+            /\ UNCHANGED <<acc, late, rej, dlv, dead, closing, ambig>>
        [] e.op = "Stuck" ->
-            /\ PrintT(<<"STUCK", l>>) /\ UNCHANGED <<acc, late, rej, dlv, dead, closing>>
-       [] OTHER -> UNCHANGED <<acc, late, rej, dlv, dead, closing>>
+            /\ PrintT(<<"STUCK", l>>) /\ UNCHANGED <<acc, late, rej, dlv, dead, closing, ambig>>
+       [] OTHER -> UNCHANGED <<acc, late, rej, dlv, dead, closing, ambig>>
 Spec == Init /\ [][Step]_vars
 ====
